@@ -25,9 +25,9 @@ def demo_failed(out):
 def main():
     outdir, x = sys.argv[1], sys.argv[2]
     base = os.path.basename(outdir.rstrip("/"))
-    rnd = "R2-" if base.startswith("out2-") else ""
-    prop = base.replace("out2-", "").replace("out-", "")
-    agent_wt = sys.argv[3] if len(sys.argv) > 3 else ("/tmp/wt2-" if rnd else "/tmp/wt-") + prop
+    rnd = "R2-" if base.startswith("out2-") else ("R3-" if base.startswith("out3-") else "")
+    prop = base.replace("out3-", "").replace("out2-", "").replace("out-", "")
+    agent_wt = sys.argv[3] if len(sys.argv) > 3 else {"R2-": "/tmp/wt2-", "R3-": "/tmp/wt3-", "": "/tmp/wt-"}[rnd] + prop
     src = os.path.join(outdir, x)
     meta = json.load(open(os.path.join(src, "meta.json")))
     vw = "/tmp/vw-%s%s-%s" % (rnd, prop, x)
